@@ -251,7 +251,7 @@ def container_doc(kind, tns, inner_kind=None, inner_markup=""):
             '<xsd:element name="e_%s_%s" type="xsd:string"/></xsd:schema>' % (tns, inner_markup, kind[-3:], abs(hash(tns + kind)) % 1000))
 
 
-def make_transport(docs):
+def make_transport(docs, flaky=False):
     z = _zeep()
 
     class Rec(z.transports.Transport):
@@ -259,10 +259,14 @@ def make_transport(docs):
             super().__init__()
             self.loads = []
             self.posts = []
+            self.failed_once = set()
 
         def load(self, url):
             self.loads.append(url)
             name = urlparse(url).path.rsplit("/", 1)[-1]
+            if flaky and name != "root.wsdl" and name not in self.failed_once:
+                self.failed_once.add(name)          # a transient fault on the first fetch of every referenced document
+                raise OSError("connection reset while fetching " + url)
             if name not in docs:
                 raise IOError("no such document " + url)
             return docs[name].encode()
@@ -306,7 +310,7 @@ def expected_address(force, wsdl_loc, addr):
     return ("parsed", r)
 
 
-def e2e_case(ctx, res, force, wname, wloc, kind, shape, addr):
+def e2e_case(ctx, res, force, wname, wloc, kind, shape, addr, flaky=False):
     z = _zeep()
     sname, tmpl = shape
     docs = {}
@@ -329,9 +333,9 @@ def e2e_case(ctx, res, force, wname, wloc, kind, shape, addr):
         t1 = dict(REF_SHAPES)[s1]
         sub[slot[k1]] = ref_markup(k1, t1 % first, TNS[k1])
     docs["root.wsdl"] = WSDL % sub
-    tr = make_transport(docs)
+    tr = make_transport(docs, flaky)
     st = z.settings.Settings(force_https=force)
-    key = (force, wname, kind, sname, addr)
+    key = (force, wname, kind, sname, addr, flaky)
     res.case(key=key, nontrivial=True)
     res.count("e2e:" + kind.replace("|same-http", "").replace("|relative", "").replace("|other-https", "|via-other-host"))
     res.count("wsdl:" + wname)
@@ -341,6 +345,17 @@ def e2e_case(ctx, res, force, wname, wloc, kind, shape, addr):
         else:
             client = z.Client(wloc, transport=tr, settings=st)
     except IOError as e:
+        if flaky and refname and wloc is not None:
+            # the load failed (as it should after a transient fault, or was retried): whatever was requested for the referenced
+            # document must still respect the property -- a retry must not fall back to the declared plain-http location
+            res.count("e2e:transient-fault")
+            case = dict(kind="e2e", force=force, wsdl=wloc, ref_kind=kind, ref_shape=sname, addr=addr, transient_fault=True)
+            for fu in [u for u in tr.loads if urlparse(u).path.endswith(refname)]:
+                fail = judge_reference(force, wloc, tmpl % refname, fu)
+                if fail:
+                    fail["case"] = case
+                    res.failures.append(fail)
+            return
         # relative reference of a stream WSDL cannot be resolved: not part of the property
         res.count("e2e:unresolvable")
         return
@@ -391,6 +406,37 @@ def e2e_case(ctx, res, force, wname, wloc, kind, shape, addr):
                         posted if posted != addr else urlunparse(urlparse(addr)), "Url.portAddress vs posted address", case))
 
 
+def foreign_address_cases(ctx, res):
+    """a port whose address element belongs to the *other* SOAP binding namespace (soap:address under a SOAP 1.2 binding and
+    the reverse): if a request is sent at all under force_https from an https WSDL, it does not go to the declared http URL"""
+    z = _zeep()
+    for a11, a12, label in (("soap12", "soap", "swapped"), ("soap", "soap", "both-1.1"), ("soap12", "soap12", "both-1.2")):
+        for addr in ("http://h.example/svc", "http://u:p@h.example:80/svc?x=1"):
+            text = (WSDL % dict(wsdl_import="", xsd_import="", xsd_include="", addr=addr.replace("&", "&amp;")))
+            text = text.replace('<port name="p11" binding="tns:b11"><soap:address', '<port name="p11" binding="tns:b11"><%s:address' % a11)
+            text = text.replace('<port name="p12" binding="tns:b12"><soap12:address', '<port name="p12" binding="tns:b12"><%s:address' % a12)
+            tr = make_transport({"root.wsdl": text})
+            res.case(key=("foreign-address", label, addr), nontrivial=True)
+            res.count("e2e:foreign-address")
+            case = dict(kind="foreign-address", layout=label, addr=addr)
+            try:
+                client = z.Client("https://h.example/w/root.wsdl", transport=tr, settings=z.settings.Settings(force_https=True))
+            except Exception:  # noqa
+                continue
+            for port in ("p11", "p12"):
+                tr.posts.clear()
+                try:
+                    client.bind("svc", port).op("x")
+                except StopPost:
+                    pass
+                except Exception:  # noqa
+                    continue
+                for posted in tr.posts:
+                    if urlparse(posted).scheme != "https":
+                        res.failures.append(dict(what="with force_https and an https WSDL a request was posted over plain http (port %s, address element of "
+                                                      "the other SOAP version)" % port, case=case, got=posted))
+
+
 PENDING = []
 
 
@@ -432,6 +478,14 @@ def run(ctx):
     logging.getLogger("zeep").setLevel(logging.ERROR)
     for c in combos:
         e2e_case(ctx, res, *c)
+    foreign_address_cases(ctx, res)
+    # transient faults: the first fetch of every referenced document fails
+    n = 0
+    for wname, wloc in WSDL_LOCS[:3]:
+        for kind in kinds:
+            for shape in REF_SHAPES:
+                e2e_case(ctx, res, True, wname, wloc, kind, shape, ADDR_SHAPES[n % len(ADDR_SHAPES)], flaky=True)
+                n += 1
     flush_pending(ctx, res)
     res.sample(dict(kind="e2e", force=True, wsdl="https://h.example/w/root.wsdl", ref_kind="xsd:include",
                     ref="http://h.example/d/inc.xsd"))
@@ -468,7 +522,10 @@ def replay(ctx, payload):
     r = Result()
     shape = next((s for s in REF_SHAPES if s[0] == case["ref_shape"]), ("none", "%s"))
     wname = next((n for n, l in WSDL_LOCS if l == case["wsdl"]), "x")
-    e2e_case(ctx, r, case["force"], wname, case["wsdl"], case["ref_kind"], shape, case["addr"])
+    if case.get("kind") == "foreign-address":
+        foreign_address_cases(ctx, r)
+    else:
+        e2e_case(ctx, r, case["force"], wname, case["wsdl"], case["ref_kind"], shape, case["addr"], flaky=bool(case.get("transient_fault")))
     bad = [f for f in r.failures if not f.get("known")]
     return (not bad), f"failures: {bad[:2]}"
 
